@@ -94,28 +94,75 @@ prop("C04",
      assumptions=[ORDER_TIER, "individuals compared are evaluated (fitness not NaN) and share one direction"],
      undecided_subclauses=["for a fixed seed a larger maxfun replays the same evaluations as a prefix (two-run hyperproperty)"])
 
+BATTERY = {"C01", "C02", "C03", "C04", "C05", "C06", "C07", "C08", "C09", "C11", "C12", "C13", "C14", "C18", "C20"}
+
+KNOWN_PREDICATES = {
+    # D11: the only active demes are all asleep (hibernation + a sprouting round that took nothing from them)
+    "all_active_demes_hibernate": lambda w: bool(w.get("detail", {}).get("active")) and
+    set(w["detail"].get("active", [])) <= set(w["detail"].get("hibernating", [])),
+}
+
+
+def run_battery(pid, tier, seed, obligation="", ignore=""):
+    drv = os.path.join(VERIF, "replay", "battery.py")
+    try:
+        p = subprocess.run(["/venv/bin/python", drv, pid, "--seed", str(seed), "--tier", tier] + (["--obligation", obligation] if obligation else [])
+                           + (["--ignore", ignore] if ignore else []),
+                           capture_output=True, text=True, timeout=1500 if tier == "quick" else 7200,
+                           env=dict(os.environ, PYTHONPATH=REPO, PYVC_REPO=REPO))
+    except subprocess.TimeoutExpired:
+        return dict(status="undecided", detail="battery timed out")
+    wit = summ = None
+    for ln in p.stdout.splitlines():
+        if ln.startswith("WITNESS "):
+            wit = json.loads(ln[8:])
+        elif ln.startswith("SUMMARY "):
+            summ = json.loads(ln[8:])
+    if wit is not None:
+        return dict(status="violation", witness=wit)
+    if summ is not None:
+        return dict(status="ok", summary=summ)
+    return dict(status="undecided", detail=("battery crashed: " + (p.stderr.strip().splitlines() or ["?"])[-1])[:300])
+
+
 def run_side_checks(pid, tier, seed):
-    return []
+    """bounded stand-ins, labelled as such in the evidence: the scenario battery on the real code (CPython)"""
+    out = []
+    if pid in BATTERY and os.environ.get("PYVC_NO_BATTERY") != "1":
+        kf = [f for f in json.load(open(os.path.join(VERIF, "known_findings.json"))).get("findings", [])
+              if f["property"] == pid and f.get("check") == "battery"]
+        known_lines, seeds_tried = [], [seed]
+        res = run_battery(pid, tier, seed, ignore=",".join(f["predicate"] for f in kf))
+        if res["status"] == "ok":
+            for h in res["summary"].get("known_hits", []):
+                f_ = kf[0]
+                known_lines.append(f"{f_['what']} (first seen in scenario {h['kinds']}, seed {seed})")
+                break
+        name = f"battery::{pid}"
+        rec = dict(name=name, kind="bounded: scenario battery on the real code under run-time monitors (replay/battery.py)",
+                   bound=f"{14 if tier == 'quick' else 60} seeded configurations per run (1-3 levels, all engines, both sprout mechanisms, "
+                         f"7 global and 5 local stop conditions, hibernation on/off, three boxes, both directions); seeds {seeds_tried}",
+                   status=res["status"], known=sorted(set(known_lines)))
+        if res["status"] == "violation":
+            rec["witness"] = res["witness"]
+            rec["detail"] = res["witness"].get("what", "")
+        elif res["status"] == "ok":
+            rec["summary"] = res.get("summary")
+        else:
+            rec["detail"] = res.get("detail", "")
+        out.append(rec)
+    return out
 
 
 def replay(pid, obligation, rec, seed, tier):
     """run the scenario battery of the property on the real code (CPython, /venv) under run-time
     monitors; returns a witness dict or None"""
-    drv = os.path.join(VERIF, "replay", "battery.py")
-    if not os.path.exists(drv):
+    if pid not in BATTERY:
         return None
-    try:
-        p = subprocess.run(["/venv/bin/python", drv, pid, "--seed", str(seed), "--tier", tier, "--obligation", obligation],
-                           capture_output=True, text=True, timeout=900 if tier == "quick" else 3600,
-                           env=dict(os.environ, PYTHONPATH=REPO, PYVC_REPO=REPO))
-    except subprocess.TimeoutExpired:
-        return None
-    for ln in p.stdout.splitlines():
-        if ln.startswith("WITNESS "):
-            try:
-                return json.loads(ln[len("WITNESS "):])
-            except Exception:
-                return dict(raw=ln)
+    for k in range(2):
+        res = run_battery(pid, tier, seed + 17 * k, obligation)
+        if res["status"] == "violation":
+            return res["witness"]
     return None
 
 NOT_APPLICABLE = {
